@@ -271,7 +271,7 @@ func c06Families(tier string) []explore.Family {
 		N = 6
 	}
 	K := len(c06Alpha)
-	return []explore.Family{c06SemFamily(tier), c06DeepFamily(), c06ClauseScaleFamily(), c06EnginesFamily(), c06SpellingFamily(tier), c06TwoOpaqueBlocksFamily(), {Name: fmt.Sprintf("token-sequences<=%d", N), Count: seqCount(K, N), Run: func(i int64, r *explore.Rec) {
+	return []explore.Family{c06SemFamily(tier), c06DeepFamily(), c06ClauseScaleFamily(), c06EnginesFamily(), c06SpellingFamily(tier), c06TwoOpaqueBlocksFamily(), c06WhitespaceBodiesFamily(), {Name: fmt.Sprintf("token-sequences<=%d", N), Count: seqCount(K, N), Run: func(i int64, r *explore.Rec) {
 		seq := seqAt(K, i)
 		var sb strings.Builder
 		for k, si := range seq {
@@ -811,7 +811,7 @@ func c06SpellingFamily(tier string) explore.Family {
 	}}
 }
 
-// ---- seventh family: two raw/comment blocks whose tags are spelled INDEPENDENTLY (8 x 8 spellings of the two
+// ---- eighth family: block and clause bodies made only of whitespace; seventh family: two raw/comment blocks whose tags are spelled INDEPENDENTLY (8 x 8 spellings of the two
 // end tags, 3 of the opening tags), with a structural token between them that is balanced, unbalanced or stray:
 // each block must end at its own end tag, so what stands between them is parsed as ordinary tags.
 func c06TwoOpaqueBlocksFamily() explore.Family {
@@ -859,6 +859,52 @@ func c06TwoOpaqueBlocksFamily() explore.Family {
 			r.Violation("A1:accept-reject:two-opaque-blocks:ill-nested-accepted", desc, "rejected: what stands between the two blocks is not properly nested", o.String())
 		case m.accept && strip(o.Out) != strip(want):
 			r.Violation("A3:rendered-markers:two-opaque-blocks", desc, strconv.Quote(want), o.String())
+		}
+	}}
+}
+
+// ---- eighth family: content that is only whitespace is content too: block and clause bodies made of blanks,
+// newlines and tabs (no trim markers anywhere) are rendered under the blocks that enclose them like any text.
+func c06WhitespaceBodiesFamily() explore.Family {
+	wss := []string{" ", "\n", "\t \n", "  "}
+	type form struct {
+		src  string // %w = the whitespace body
+		want func(w string) string
+	}
+	rep := func(w string, n int) string { return strings.Repeat(w, n) }
+	forms := []form{
+		{"[{% if true %}%w{% endif %}]", func(w string) string { return "[" + w + "]" }},
+		{"[{% if false %}x{% else %}%w{% endif %}]", func(w string) string { return "[" + w + "]" }},
+		{"[{% if false %}%w{% else %}y{% endif %}]", func(w string) string { return "[y]" }},
+		{"[{% if false %}x{% elsif true %}%w{% else %}y{% endif %}]", func(w string) string { return "[" + w + "]" }},
+		{"[{% unless false %}%w{% endunless %}]", func(w string) string { return "[" + w + "]" }},
+		{"[{% case 1 %}{% when 1 %}%w{% else %}y{% endcase %}]", func(w string) string { return "[" + w + "]" }},
+		{"[{% case 2 %}{% when 1 %}x{% else %}%w{% endcase %}]", func(w string) string { return "[" + w + "]" }},
+		{"[{% for i in (1..3) %}%w{% endfor %}]", func(w string) string { return "[" + rep(w, 3) + "]" }},
+		{"[{% for i in (1..0) %}x{% else %}%w{% endfor %}]", func(w string) string { return "[" + w + "]" }},
+		{"[{% tablerow i in (1..2) %}%w{% endtablerow %}]", func(w string) string { return "[" + rep(w, 2) + "]" }},
+		{"{% capture c %}%w{% endcapture %}[{{ c }}]", func(w string) string { return "[" + w + "]" }},
+		{"[{% if true %}%w{% if true %}%w{% endif %}%w{% endif %}]", func(w string) string { return "[" + rep(w, 3) + "]" }},
+		{"[{% for i in (1..2) %}{% if true %}%w{% endif %}{% endfor %}]", func(w string) string { return "[" + rep(w, 2) + "]" }},
+		{"[%w{% if true %}a{% endif %}%w]", func(w string) string { return "[" + w + "a" + w + "]" }},
+		{"[{% if true %}%wa%w{% endif %}]", func(w string) string { return "[" + w + "a" + w + "]" }},
+	}
+	return explore.Family{Name: "whitespace-only-bodies", Count: int64(len(forms) * len(wss)), Run: func(i int64, r *explore.Rec) {
+		f, w := forms[int(i)/len(wss)], wss[int(i)%len(wss)]
+		src := strings.ReplaceAll(f.src, "%w", w)
+		want := f.want(w)
+		r.Eval()
+		r.Transition()
+		r.Trace()
+		o := Render(c06.eng, src, map[string]any{})
+		got := c12TableTags.ReplaceAllString(o.Out, "")
+		if strings.Contains(src, "tablerow") {
+			got = strings.ReplaceAll(got, "\n", "") // the row decoration ends in a newline
+			want = strings.ReplaceAll(want, "\n", "")
+		}
+		r.Class("whitespace-body")
+		if o.Panic != nil || o.Err != nil || got != want {
+			r.Violation("A3:rendered-markers:whitespace-only-body", map[string]any{"template": src}, strconv.Quote(want), o.String())
 		}
 	}}
 }
